@@ -120,6 +120,66 @@ func init() {
 		ex.ghost["bigbytes:"+ref.String()] = v
 		return SliceV{Arr: ref, Off: Int(0), Len: n, Cap: n, Elem: types.Typ[types.Byte]}, reach
 	}
+	// exact arithmetic on the mathematical values (z receives the result and is returned)
+	bin := func(name string, f func(ex *Exec, reach, x, y *Term) *Term) {
+		externs["(*math/big.Int)."+name] = func(ex *Exec, fr *Frame, call *ssa.Call, args []Value, reach *Term) (Value, *Term) {
+			p := ex.ptr(args[0])
+			xp, yp := ex.ptr(args[1]), ex.ptr(args[2])
+			ex.oblige("nil", "big."+name+" operands", reach, And(Ne(p.Ref, Int(0)), Ne(xp.Ref, Int(0)), Ne(yp.Ref, Int(0))))
+			ex.setBigVal(reach, p.Ref, f(ex, reach, ex.bigVal(xp.Ref), ex.bigVal(yp.Ref)))
+			return p, reach
+		}
+	}
+	bin("Add", func(ex *Exec, reach, x, y *Term) *Term { return Add(x, y) })
+	bin("Sub", func(ex *Exec, reach, x, y *Term) *Term { return Sub(x, y) })
+	bin("Mul", func(ex *Exec, reach, x, y *Term) *Term { return Mul(x, y) })
+	bin("Mod", func(ex *Exec, reach, x, y *Term) *Term {
+		// Euclidean modulus; a zero modulus panics
+		ex.oblige("pre", "big.Mod: modulus != 0", reach, Ne(y, Int(0)))
+		return EMod(x, y)
+	})
+	shift := func(name string, left bool) {
+		externs["(*math/big.Int)."+name] = func(ex *Exec, fr *Frame, call *ssa.Call, args []Value, reach *Term) (Value, *Term) {
+			p := ex.ptr(args[0])
+			xp := ex.ptr(args[1])
+			ex.oblige("nil", "big."+name+" operands", reach, And(Ne(p.Ref, Int(0)), Ne(xp.Ref, Int(0))))
+			x := ex.bigVal(xp.Ref)
+			n, ok := args[2].(*Term).ConstInt()
+			var r *Term
+			if ok && n >= 0 && n < 1<<16 {
+				pw := new(big.Int).Lsh(big.NewInt(1), uint(n))
+				if left {
+					r = MulC(pw, x)
+				} else {
+					r = EDivC(x, pw) // Rsh rounds towards minus infinity: floor division
+				}
+			} else {
+				ex.unsupported("big.Int." + name + " by a non-constant amount")
+				r = Fresh("big.shift", SInt, nil, nil)
+			}
+			ex.setBigVal(reach, p.Ref, r)
+			return p, reach
+		}
+	}
+	shift("Lsh", true)
+	shift("Rsh", false)
+	externs["(*math/big.Int).Set"] = func(ex *Exec, fr *Frame, call *ssa.Call, args []Value, reach *Term) (Value, *Term) {
+		p, xp := ex.ptr(args[0]), ex.ptr(args[1])
+		ex.oblige("nil", "big.Set operands", reach, And(Ne(p.Ref, Int(0)), Ne(xp.Ref, Int(0))))
+		ex.setBigVal(reach, p.Ref, ex.bigVal(xp.Ref))
+		return p, reach
+	}
+	externs["(*math/big.Int).SetInt64"] = func(ex *Exec, fr *Frame, call *ssa.Call, args []Value, reach *Term) (Value, *Term) {
+		p := ex.ptr(args[0])
+		ex.setBigVal(reach, p.Ref, args[1].(*Term))
+		return p, reach
+	}
+	externs["(*math/big.Int).Sign"] = func(ex *Exec, fr *Frame, call *ssa.Call, args []Value, reach *Term) (Value, *Term) {
+		p := ex.ptr(args[0])
+		ex.oblige("nil", "big.Sign receiver", reach, Ne(p.Ref, Int(0)))
+		v := ex.bigVal(p.Ref)
+		return Ite(Lt(v, Int(0)), Int(-1), Ite(Eq(v, Int(0)), Int(0), Int(1))), reach
+	}
 	externs["(*math/big.Int).Cmp"] = func(ex *Exec, f *Frame, call *ssa.Call, args []Value, reach *Term) (Value, *Term) {
 		a, b := ex.bigVal(ex.ptr(args[0]).Ref), ex.bigVal(ex.ptr(args[1]).Ref)
 		return Ite(Lt(a, b), Int(-1), Ite(Eq(a, b), Int(0), Int(1))), reach
